@@ -682,7 +682,7 @@ int main(int argc, char** argv) {
       arena_free();
       epoch_token = next_token; live_count = 0; inv_msg[0] = 0; probe_mode = 0;
       printf("done\n"); fflush(stdout);
-      if (++cases >= 4000) { break; }
+      cases++;
       continue;
     }
     int n = split(line, w, MAXW);
